@@ -43,14 +43,14 @@ FULL4 = (("mkdir", "d"), ("write", "d/a", b"x\n"), ("mkdir", "e"), ("write", "a"
 
 # (label, kinds, namespace, start history, mode, depth quick, depth thorough)
 PLAN = [
-    ("empty", ("bzr", "git"), ts.NS1, (), "fresh", 5, 7),
-    ("full", ("bzr", "git"), ts.NS1, FULL, "fresh", 3, 5),
+    ("empty", ("bzr", "git"), ts.NS1, (), "fresh", 5, 6),
+    ("full", ("bzr", "git"), ts.NS1, FULL, "fresh", 3, 4),
     ("two-dirs", ("bzr", "git"), ts.NS2, FULL, "fresh", 2, 3),
-    ("nested", ("bzr", "git"), ts.NS3, FULL3, "fresh", 2, 4),
-    ("dir-move", ("bzr", "git"), ts.NS4, FULL4, "fresh", 2, 4),
-    ("kind-change", ("bzr",), ts.NS1F, FULL, "fresh", 2, 4),
-    ("empty-live", ("bzr", "git"), ts.NS1, (), "live", 3, 5),
-    ("full-live", ("bzr", "git"), ts.NS1, FULL, "live", 2, 3),
+    ("nested", ("bzr", "git"), ts.NS3, FULL3, "fresh", 2, 3),
+    ("dir-move", ("bzr", "git"), ts.NS4, FULL4, "fresh", 2, 3),
+    ("kind-change", ("bzr",), ts.NS1F, FULL, "fresh", 2, 3),
+    ("empty-live", ("bzr", "git"), ts.NS1, (), "live", 3, 4),
+    ("full-live", ("bzr", "git"), ts.NS1, FULL, "live", 2, 2),
 ]
 
 
